@@ -547,6 +547,49 @@ def rule_bounded_recursion(ctx):
     r.floor(2)
 
 
+def rule_no_failure_after_store(ctx):
+    """a line that is diagnosed leaves the option exactly as it was: a reader that has stored (or has called a reader that
+    stored) cannot report failure afterwards"""
+    db = ctx.db
+    r = ctx.rule("no-failure-after-store", "in every Option<T>::read / read_enum / read_number no `return false` is reachable from a store to "
+                 "m_val or from the success edge of a call to a storing reader")
+    fs = [f for q in db.by_qn for f in db.by_qn[q] if re.match(r"uncrustify::Option<.*>::read$", q)] + _readers(db)
+    seenk = set()
+    n = 0
+    for f in fs:
+        if f.key in seenk:
+            continue
+        seenk.add(f.key)
+        starts = []
+        for x in f.all_nodes():
+            if x["k"] == "asg" and (f.nodes.get(x["a"][0]) or {}).get("k") == "mem" and f.nodes[x["a"][0]]["n"] == "m_val":
+                starts.append(("store", x, None))
+        for b, blk in f.blocks.items():
+            t = blk.get("term")
+            c = f.nodes.get(t.get("lc", t.get("c"))) if t and t.get("c") is not None else None
+            neg = False
+            while c is not None and (c["k"] == "cast" or (c["k"] == "un" and c.get("op") == "!")):
+                if c["k"] == "un":
+                    neg = not neg
+                c = f.nodes.get(c["a"][0])
+            if c is not None and c["k"] == "call" and (c.get("c") or "").split("::")[-1] in ("read_enum", "read_number", "convert_string") and len(f.succ[b]) == 2:
+                starts.append(("call", c, f.succ[b][1 if neg else 0]))
+        for kind, x, blk0 in starts:
+            n += 1
+            r.seen()
+            def is_fail(y):
+                return y["k"] == "ret" and y.get("a") and (f.nodes.get(y["a"][0]) or {}).get("k") == "bool" and f.nodes[y["a"][0]]["v"] == 0
+            if kind == "store":
+                w = f.paths_avoiding(x["i"], is_fail, lambda y: False)
+            else:
+                w = f.paths_avoiding(blk0, is_fail, lambda y: False, start_is_node=False) if blk0 is not None and blk0 >= 0 else None
+            r.check(w is None, "%s/%s@%s" % (f.qn.replace("uncrustify::", ""), kind, expr_str(f, x["i"])[:30]), db.loc(f, x),
+                    "after `%s` succeeded the reader can still return false: the option keeps a value from a line that is reported as bad"
+                    % expr_str(f, x["i"])[:60], path=["%s:%d" % (f.file, l) for l in f.path_lines(w[0])][-6:] if w else None)
+    r.require(n >= 6, "only %d stores / storing calls in the readers" % n)
+    r.floor(6)
+
+
 def rule_diagnostic_names_file(ctx):
     """a diagnostic "names the file, line and option": the file is the one load_option_file() is reading - for a line of an
     included file not the top-level config (found on the pinned tree; repaired)"""
@@ -589,4 +632,4 @@ def rule_diagnostic_names_file(ctx):
     r.floor(3)
 
 
-RULES = [rule_store_after_validate, rule_fail_warns, rule_no_silent_line, rule_no_throw, rule_unsigned_bounded, rule_nl_max_guard, rule_bounded_recursion, rule_diagnostic_names_file]
+RULES = [rule_store_after_validate, rule_fail_warns, rule_no_silent_line, rule_no_throw, rule_unsigned_bounded, rule_nl_max_guard, rule_bounded_recursion, rule_diagnostic_names_file, rule_no_failure_after_store]
